@@ -168,12 +168,26 @@ func checkEnum(t run.TB, c EnumCase) (dup bool) {
 	for _, it := range c.Items {
 		toks = append(toks, it.Tok)
 	}
-	a := js.New("a", ex+" // {enum: @E}")
-	if err, p := safe(func() error { return a.AddRule("@E", enum.New("@E", c.Text)) }); err != nil || p != nil {
+	// the same rule object that was inspected above is added, and the schema uses it twice
+	a := js.New("a", "[\n  "+ex+", // {enum: @E}\n  "+ex+" // {enum: @E}\n]")
+	if err, p := safe(func() error { return a.AddRule("@E", e) }); err != nil || p != nil {
 		run.Fail(t, chkEnum, c, "AddRule of a checked rule fails: %v %v", err, p)
 	}
-	b := js.New("b", ex+" // {enum: ["+strings.Join(toks, ", ")+"]}")
+	inl := "[" + strings.Join(toks, ", ") + "]"
+	b := js.New("b", "[\n  "+ex+", // {enum: "+inl+"}\n  "+ex+" // {enum: "+inl+"}\n]")
 	ca, cb := lib.Check(a), lib.Check(b)
+	// using the rule must not change what it lists
+	if vals2, err := e.Values(); err != nil || fmt.Sprint(vals2) != fmt.Sprint(vals) {
+		run.Fail(t, chkEnum, c, "Values() changed after the rule was used by a schema: before %v, after %v (err %v)", vals, vals2, err)
+	}
+	// a second schema sharing the rule object behaves the same
+	a2 := js.New("a2", ex+" // {enum: @E}")
+	if err, p := safe(func() error { return a2.AddRule("@E", e) }); err != nil || p != nil {
+		run.Fail(t, chkEnum, c, "AddRule of an already used rule fails: %v %v", err, p)
+	}
+	if r := lib.Check(a2); !r.OK {
+		run.Fail(t, chkEnum, c, "a second schema using the same rule object is rejected: %v", r)
+	}
 	if ca.OK != cb.OK {
 		run.Fail(t, chkEnum, c, "Check differs: named rule %v, inline list %v", ca, cb)
 	}
@@ -181,7 +195,8 @@ func checkEnum(t run.TB, c EnumCase) (dup bool) {
 		run.Fail(t, chkEnum, c, "schema with a member as example is rejected: %v", ca)
 	}
 	for _, p := range c.Probes {
-		va, vb := lib.Validate(a, []byte(p)), lib.Validate(b, []byte(p))
+		doc := "[" + p + "," + ex + "," + p + "]"
+		va, vb := lib.Validate(a, []byte(doc)), lib.Validate(b, []byte(doc))
 		if va.OK != vb.OK {
 			run.Fail(t, chkEnum, c, "probe %s: {enum: @E} gives %v, the inline list gives %v", p, va, vb)
 		}
